@@ -1765,6 +1765,6 @@ def explore_c09(ctx, res, replay_ops=None):
                 "is then updated and released; for larger batches: exactly-once recording of the accepted containers" % procs)
 
 
-PROPS["C09"] = dict(lean=["ChfVerif.Props.C09"], explore=explore_c09, race=True,
+PROPS["C09"] = dict(lean=["ChfVerif.Props.C09"], explore=explore_c09, race=True, gen=[gen_table("locksites", "LockSites.lean")],
                     trusted=["the Go race detector and scheduler: interleavings are sampled, not enumerated (the theorem is about atomic steps; that the code's steps are atomic is what the runs test)",
                              "go-diameter and the in-memory store under concurrency"])
